@@ -3,6 +3,9 @@ correspondence and property oracle against the real functions."""
 import bisect
 import json
 import math
+import signal
+import threading
+import traceback
 
 import numpy as np
 
@@ -32,18 +35,96 @@ TABLE = sorted({2 ** a * 3 ** b for a in range(25) for b in range(15)})
 B_LIMIT = max(t for t in TABLE if t < 3 ** 15)          # 14155776: below it every smooth number is in the table
 
 
+class ImplError(Exception):
+    """the implementation did something no caller can live with: raised a non-Exception, hung, returned None / a
+    list / a non-numeric array, or modified an argument in place"""
+
+
+def _summ(a):
+    if isinstance(a, np.ndarray):
+        small = a.size <= 300 and a.dtype.kind in "fiub"
+        return {"shape": list(a.shape), "dtype": str(a.dtype), "data": a.tolist() if small else None}
+    if isinstance(a, (np.generic,)):
+        return a.item() if a.dtype.kind in "fiub" else repr(a)
+    if isinstance(a, (int, float, str, bool, type(None))):
+        return a
+    if isinstance(a, (list, tuple)) and len(a) <= 8:
+        return [_summ(v) for v in a]
+    return repr(a)[:80]
+
+
+def _alarm(signum, frame):
+    raise ImplError("call did not return within %d s" % Guard.TIMEOUT)
+
+
+def guarded_call(name, fn, a, k):
+    """call fn(*a, **k); every outcome other than 'returns a numeric array/scalar (or raises an ordinary
+    Exception) and leaves its arguments alone' becomes an ImplError (an Exception), which every call site
+    reports as a failing input"""
+    args = list(a) + list(k.values())
+    snap = [(i, x, x.copy()) for i, x in enumerate(args) if isinstance(x, np.ndarray)]
+    Guard.last_call = {"op": "call", "fn": name, "args": [_summ(x) for x in a], "kwargs": {q: _summ(v) for q, v in k.items()}}
+    if name in Guard.hung:
+        raise ImplError("%s not called again: an earlier call did not return within %d s" % (name, Guard.TIMEOUT))
+    use_alarm = threading.current_thread() is threading.main_thread()
+    if use_alarm:
+        old = signal.signal(signal.SIGALRM, _alarm)
+        signal.setitimer(signal.ITIMER_REAL, Guard.TIMEOUT)
+    try:
+        r = fn(*a, **k)
+    except ImplError:
+        Guard.hung.add(name)                        # raised by the watchdog
+        raise
+    except Exception:
+        raise
+    except BaseException as e:                      # SystemExit, KeyboardInterrupt, GeneratorExit raised by the code
+        raise ImplError("%s raised %r" % (name, e))
+    finally:
+        if use_alarm:
+            signal.setitimer(signal.ITIMER_REAL, 0)
+            signal.signal(signal.SIGALRM, old)
+    for i, x, c in snap:
+        same = x.shape == c.shape and x.dtype == c.dtype and bool(np.array_equal(x, c, equal_nan=x.dtype.kind in "fc"))
+        if not same:
+            raise ImplError("%s modified its argument %d in place" % (name, i))
+    if name == "fcn_cosine":
+        if not callable(r):
+            raise ImplError("fcn_cosine returned %s instead of a function" % type(r).__name__)
+        return lambda *aa, **kk: guarded_call("fcn_cosine(bounds)", r, aa, kk)
+    if not isinstance(r, (np.ndarray, np.generic, int, float, complex)) or isinstance(r, bool):
+        raise ImplError("%s returned %s instead of an array" % (name, type(r).__name__))
+    if isinstance(r, (np.ndarray, np.generic)) and r.dtype.kind not in "fciub":
+        raise ImplError("%s returned an array of dtype %s" % (name, r.dtype))
+    return r
+
+
+class Guard:
+    TIMEOUT = 60
+    last_call = None
+    hung = set()
+
+    def __init__(self, mod):
+        self._mod = mod
+
+    def __getattr__(self, name):
+        obj = getattr(self._mod, name)
+        if name.startswith("__") or not callable(obj) or isinstance(obj, type):
+            return obj
+        return lambda *a, **k: guarded_call(name, obj, a, k)
+
+
 def f_mod():
     return F()
 
 
 def F():
     from ibldsp import fourier
-    return fourier
+    return Guard(fourier)
 
 
 def U():
     from ibldsp import utils
-    return utils
+    return Guard(utils)
 
 
 class Cases:
@@ -431,6 +512,9 @@ def part_half(ctx, cs):
         d = {"op": "freduce", "x": flat_c(X), "shape": [n], "axis": 0}
         try:
             r = np.asarray(f.freduce(X))
+            if r.ndim != 1:
+                ctx.fail("freduce of a 1-D array returned shape %s" % (r.shape,), d, {"op": "freduce", "kind": "shape"})
+                continue
             cs.add([4, n] + flat_c(X), [1, len(r)] + flat_c(r), d)
             if n == 0:
                 ctx.fail("freduce of an empty axis returned", d, {"op": "freduce", "kind": "empty"})
@@ -453,6 +537,9 @@ def part_half(ctx, cs):
             d = {"op": "fexpand", "x": flat_c(H), "shape": [n], "axis": 0, "ns": ns}
             try:
                 e = np.asarray(f.fexpand(H, ns))
+                if e.ndim != 1:
+                    ctx.fail("fexpand of a 1-D array returned shape %s" % (e.shape,), d, {"op": "fexpand", "kind": "shape"})
+                    continue
                 out = [1, len(e)] + flat_c(e)
             except IndexError:
                 out = [0]
@@ -824,6 +911,11 @@ def part_cosine(ctx, cs):
             continue
         tol = 1e-6 if xdt == "float32" else 1e-12
         sel = np.ones(len(xs), dtype=bool)
+        # textbook definition, computed independently of the model: (1 - cos(pi * clip((x-b0)/(b1-b0), 0, 1))) / 2
+        tb = (1.0 - np.cos(np.pi * np.clip((np.array(xs, dtype=np.float64) - b0n) / (b1n - b0n), 0.0, 1.0))) / 2.0
+        if y.shape != tb.shape or np.max(np.abs(y - tb), initial=0) > tol:
+            ctx.fail("fcn_cosine is not the cosine taper (1 - cos(pi (x-b0)/(b1-b0)))/2 clipped to [0, 1] (x dtype %s)" % xdt,
+                     d, {"op": "fcn_cosine", "kind": "textbook", "xdtype": xdt})
         if y.shape != exp.shape or np.max(np.abs(y[sel] - exp[sel]), initial=0) > tol:
             ctx.disagree("fcn_cosine differs from the model's taper code values", d)
         for xn, yv in zip(xs, y):
@@ -970,15 +1062,25 @@ def part_sequences(ctx, cs):
 def run(ctx):
     common.proof_obligations(ctx, whitelist=sorted(common.STDLIB_AXIOMS))
     cs = Cases()
-    part_ns_optim(ctx, cs)
-    part_convolve(ctx, cs)
-    part_fscale(ctx, cs)
-    part_half(ctx, cs)
-    part_dft(ctx, cs)
+
+    def guarded_part(part):
+        # no harness crash, ever: whatever escapes a part (an implementation result that breaks a canonicaliser,
+        # an ImplError at a call site without its own handler) is reported as a failing input = the last call made
+        try:
+            part(ctx, cs)
+        except BaseException as e:
+            tb = traceback.extract_tb(e.__traceback__)
+            where = "%s:%d" % (tb[-1].name, tb[-1].lineno) if tb else "?"
+            ctx.fail("%s: the result of %s could not be used as the documented array (%r at %s)"
+                     % (part.__name__, (Guard.last_call or {}).get("fn"), e, where),
+                     Guard.last_call or {"op": "call", "fn": None}, {"op": part.__name__, "kind": "unusable-result"})
+
+    for part in (part_ns_optim, part_convolve, part_fscale, part_half, part_dft):
+        guarded_part(part)
     common.correspondence(ctx, PROP, HEADER, cs.inp, cs.out, lambda i: cs.desc[i], n_kernel=80, shard=40)
-    part_sequences(ctx, cs)          # before the single-call filter cases: nothing may depend on call history
-    part_filters(ctx, cs)
-    part_cosine(ctx, cs)
+    # call sequences before the single-call filter cases: nothing may depend on call history
+    for part in (part_sequences, part_filters, part_cosine):
+        guarded_part(part)
     cs.dist["model_cases_integer_exact"] = len(cs.inp)
     pick = [i for i in range(0, len(cs.inp), max(1, len(cs.inp) // 7)) if len(cs.inp[i]) + len(cs.out[i]) < 60][:8]
     samples = [{"input": cs.inp[i], "implementation_output": cs.out[i], "op": cs.desc[i]["op"]} for i in pick]
@@ -1117,6 +1219,16 @@ def replay(ctx, data):
                 sub.fail(what, inp)
             run_filter_sequence(f, inp["ns"], ts, inp["bd"], inp["b"], inp["sequence"], report)
             print("sequence of %d calls re-executed" % len(inp["sequence"]))
+        elif op == "call":
+            def back(v):
+                return np.array(v["data"], dtype=v["dtype"]).reshape(v["shape"]) if isinstance(v, dict) and v.get("data") is not None else v
+            mod = f if hasattr(f._mod, inp["fn"]) else U()
+            try:
+                r = getattr(mod, inp["fn"])(*[back(v) for v in inp["args"]], **{q: back(v) for q, v in inp["kwargs"].items()})
+                print("implementation returned", type(r).__name__, getattr(r, "shape", None), getattr(r, "dtype", None))
+            except Exception as e:
+                print("implementation:", repr(e))
+                sub.fail(repr(e), inp)
         elif op == "filter-negative-axis":
             ts = np.array(inp["ts"], dtype=float)
             o = np.asarray(f.lp(ts.copy(), inp["si"], inp["b"], axis=inp["axis"]))
@@ -1134,6 +1246,9 @@ def replay(ctx, data):
                 sub.disagree("codes", inp)
             if any((xn <= b0n and yv != 0.0) or (xn >= b1n and abs(yv - 1.0) > 1e-6) for xn, yv in zip(xs, y)):
                 sub.fail("exact bound", inp)
+            tb = (1.0 - np.cos(np.pi * np.clip((np.array(xs, dtype=float) - b0n) / (b1n - b0n), 0.0, 1.0))) / 2.0
+            if y.shape != tb.shape or np.max(np.abs(y - tb)) > 1e-6:
+                sub.fail("not the cosine taper", inp)
         elif op == "fcn_cosine":
             xs = np.array(inp["x"])
             y = U().fcn_cosine(inp["bounds"])(xs.copy())
